@@ -26,6 +26,16 @@ CHECKS = {
             "the reference semantics is a Python transcription of the specification, not (yet) a "
             "Coq definition; exact laws decided on exact-safe programs only",
             "section 6 C02"),
+    "C05": ("proof",
+            "Coq theorems (exact instance): the bookkeeping invariant holds at zero and is "
+            "preserved by every successful fill (the weight reaches exactly one bin), by + and by "
+            "scaling, hence in every state of every history (inv_reach); " + TIE + "; the "
+            "invariant and 'no numeric value makes fill raise' are evaluated on the implementation "
+            "after every operation, with +-ulp probes of every edge",
+            "partial in two respects: the Stack clause and the binary64 routing facts (index in "
+            "range for every double) are checked on the implementation and by the bit-exact "
+            "correspondence only, not proved",
+            "section 6 C05"),
     "C07": ("proof",
             "Coq theorems for every arithmetic instance: on every pair that + accepts, += yields "
             "exactly add_t a b and does not raise; += and + accept the same pairs; " + TIE +
